@@ -28,6 +28,13 @@ NA = {
  "C14": "PSD-ness, budget feasibility and 'last feasible improving iterate' are determined by the input; no seam, draw or history can change them (DESIGN §7)",
  "C19": "metamorphic relations between two deterministic fits on transformed inputs; translations/rotations/permutations are inputs, not schedules or faults (DESIGN §7)",
 }
+PARTIAL = {
+ "C09": " PARTIAL CLAIM: only the LFDA clause has a simulator dimension (ARPACK start vector, forced non-convergence, fallback chain); Covariance and RCA are sampled fault-free differential checks against the same kind of reference.",
+ "C16": " PARTIAL CLAIM: the ordering clause (rejection before any fitting work) and the history clause (calibrate / fit with calibration_params on live handles) carry the simulator dimension; optimality is decided per instance by brute force over all distinct cut-offs and is sampled, not searched.",
+ "C20": " PARTIAL CLAIM: seed-reproducibility of 'random' priors/inits under perturbed ambient state and the Cholesky/eigen fallback paths carry the simulator dimension; the remaining clauses are sampled matrix identities. One open known finding (strict-PD test vs eigen-solver noise).",
+ "C03": " Two open known findings share one root cause with C20's (PSD conversion tolerance vs eigen-solver noise); they are keyed by an observer-computed discriminator.",
+ "C15": " One open known finding (SCML's PSD-by-construction matrix rejected within rounding), keyed by an observer-computed discriminator.",
+}
 LEVEL_NOTE = ("Sampling, not proof. Trusted base: the harness (mlsim), its reference models, numpy/scipy/"
               "scikit-learn as installed, single-threaded BLAS. Real metric_learn code from /repo's working tree "
               "runs in-process; stubs are only the seams listed in the evidence file (real_vs_stub).")
@@ -54,7 +61,7 @@ for pid, (ref, dims, tech) in sorted(CLAIMED.items()):
                              "model as oracle; every failure is shrunk and stored as an exactly replayable plan. A clean batch is "
                              "evidence, not proof." % dims),
                        design_ref=ref),
-    level_note=LEVEL_NOTE,
+    level_note=LEVEL_NOTE + PARTIAL.get(pid, ""),
     technique="deterministic simulation with fault injection: " + tech))
 man = dict(
   version=1,
